@@ -20,7 +20,7 @@ sys.path.insert(0, sys.argv[2])
 sys.setswitchinterval(1e-5)
 from pygopherd import initialization, logger
 server = initialization.initialize(sys.argv[1])
-sys.stdout.write("PORT %d\n" % server.socket.getsockname()[1])
+sys.stdout.write("PORT %d %d\n" % (server.socket.getsockname()[1], os.getpid()))
 sys.stdout.flush()
 try:
     server.serve_forever()
@@ -60,21 +60,33 @@ def write_conf(path, root, kind="full", servertype="ThreadingTCPServer", cacheti
 
 
 class Server:
-    def __init__(self, conf):
+    def __init__(self, conf, cwd="/"):
         errdir = os.environ.get("PGV_LIVE_STDERR")
         self.errfile = open(os.path.join(errdir, "server-%d-%d.err" % (os.getpid(), id(self))), "wb") if errdir else None
         self.proc = subprocess.Popen([sys.executable, "-W", "ignore", "-c", SERVER_CODE, conf, drive.REPO],
-                                     stdout=subprocess.PIPE, stderr=self.errfile or subprocess.DEVNULL, cwd="/",
+                                     stdout=subprocess.PIPE, stderr=self.errfile or subprocess.DEVNULL, cwd=cwd,
                                      env=dict(os.environ, PYTHONDONTWRITEBYTECODE="1"))
         line = self.proc.stdout.readline().decode()
         if not line.startswith("PORT "):
             self.stop()
             raise RuntimeError("live server did not start: %r" % line)
         self.port = int(line.split()[1])
-        self.pid = self.proc.pid
+        self.pid = int(line.split()[2])  # differs from proc.pid when the server detached (the launched process has exited)
 
     def stop(self):
         try:
+            pid = getattr(self, "pid", self.proc.pid)
+            if pid != self.proc.pid:
+                import signal
+                for sig in (signal.SIGTERM, signal.SIGKILL):
+                    try:
+                        os.kill(pid, sig)
+                    except OSError:
+                        break
+                    for _ in range(30):
+                        if not os.path.exists("/proc/%d" % pid):
+                            break
+                        time.sleep(0.1)
             self.proc.terminate()
             try:
                 self.proc.wait(timeout=3)
@@ -86,6 +98,8 @@ class Server:
                 self.proc.stdout.close()
 
     def alive(self):
+        if self.pid != self.proc.pid:
+            return os.path.exists("/proc/%d" % self.pid)
         return self.proc.poll() is None
 
     def threads(self):
